@@ -148,6 +148,12 @@ def run_case(case, ctx):
     box = [None if b is None else tuple(b) for b in case["box"]]
     fam = case["file"]["family"]
     exc = None
+    sentinel = None
+    if case["kind"] == "invalid" and case["file"]["values"]["vseed"] % 2:
+        # something already stored under the output name: a refused request must not have touched it
+        sentinel = b"previous content of the output path " * 7
+        with open(out, "wb") as fh:
+            fh.write(sentinel)
     out2, box2, exc2 = os.path.join(d, "crop2.sgz"), None, None
     cropper = SgzCropper(path)
     try:
@@ -192,7 +198,10 @@ def run_case(case, ctx):
             raise Violation("invalid-request-not-refused",
                             f"request {case['box']} ({case.get('bad')}) on dims {case['file']['shape']}: "
                             + ("no exception" if exc is None else f"{type(exc).__name__}: {exc}"))
-        if os.path.exists(out):
+        if sentinel is not None:
+            if not os.path.exists(out) or open(out, "rb").read() != sentinel:
+                raise Violation("invalid-request-touched-existing-output", f"{case['box']}: the file already at the output path was changed or removed")
+        elif os.path.exists(out):
             raise Violation("invalid-request-left-output", f"{case['box']}: output exists ({os.path.getsize(out)} bytes)")
         return {"sig": [fam, "invalid", str(case.get("bad")), case["classes"], case["by"]], "labels": labels}
     if exc is not None:
